@@ -10,7 +10,8 @@ sub-agents, and the evaluation transcripts of tools/eval_mutant.sh:
 """
 import json, os, re, shutil, sys
 
-SRC = "/tmp/seed5"
+SRC = os.environ.get("SEED_SRC", "/tmp/seed5")
+ROUND = os.environ.get("SEED_ROUND", "5")
 DST = os.path.join(os.path.dirname(os.path.dirname(os.path.abspath(__file__))), "seeded")
 
 # what was added to the checks for the changes that were missed at first (general dimensions, not copies of the input)
@@ -33,6 +34,15 @@ HISTORY = {
     "C17-m1": "missed at first; C17 gained the family of several table entries answering one question (3-7 aliases of one register, ...)",
     "C17-m2": "missed at first; C17 gained the family using pc where operands are evaluated while the text is read",
     "C18-m2": "detected by the check as it stood; patch re-based after 42887a4",
+}
+
+
+AUTHOR6 = "independent sub-agent given only the property text and a scratch worktree (asked for one change that depends on state carried from the previous item, line, segment, call, file or build, and one that sits in or next to a protective limit / guard / scanner of the code base or is a small feature with a side effect)"
+HISTORY6 = {
+    "C08-m2": "missed at first; the renderer's comment texts (all checks that render programs) now include colons, a hash and a dot in front of text (`note: x`, `mode: done`, `# not a directive`)",
+    "C14-m2": "missed at first; the renderer's comment texts now include a block-comment opener (`was: /* ldi r16, 2`, `/*`) in ; and // comments",
+    "C17-m1": "missed at first; C17 gained family 13 (one macro name called with the same argument texts in every role, another body per role, two roles failing in the middle of the expansion pass)",
+    "C15-m1": "detected by the leg added earlier in this session (messages across segment switches and macro calls: a silent call between two messages)",
 }
 
 
@@ -69,17 +79,18 @@ def main():
             if not os.path.exists(os.path.join(d, "patch.diff")):
                 continue
             key = f"{P}-{m}"
-            name = f"{P}-r5-{m[1]}"
+            name = f"{P}-r{ROUND}-{m[1]}"
             first = checks(f"{SRC}/eval-{P}-{m}.txt")
             cross = checks(f"{SRC}/evalx-{P}-{m}.txt")
             later = checks(f"{SRC}/eval3-{P}-{m}.txt")
+            later.update(checks(f"{SRC}/eval2-{P}-{m}.txt"))
             later.update(checks(f"{SRC}/eval4-{P}-{m}.txt"))
             as_stood = sorted([c for c, v in {**cross, **first}.items() if v[0] == 1 and v[1] > 0])
             now = sorted(set(as_stood) | {c for c, v in later.items() if v[0] == 1 and v[1] > 0})
             own_first = first.get(P, (0, 0, ""))[0] == 1
             agent = json.load(open(os.path.join(d, "meta.json")))
             best = None
-            for f in (f"{SRC}/eval4-{P}-{m}.txt", f"{SRC}/eval3-{P}-{m}.txt", f"{SRC}/eval-{P}-{m}.txt"):
+            for f in (f"{SRC}/eval4-{P}-{m}.txt", f"{SRC}/eval3-{P}-{m}.txt", f"{SRC}/eval2-{P}-{m}.txt", f"{SRC}/eval-{P}-{m}.txt"):
                 if os.path.exists(f) and "applies (" in open(f, errors="replace").read():
                     best = f
                     break
@@ -94,11 +105,11 @@ def main():
                     break
             meta = {
                 "property": P,
-                "round": 5,
+                "round": int(ROUND),
                 "breaks": agent.get("summary", ""),
                 "needs_to_manifest": agent.get("needs", ""),
                 "files_touched": agent.get("files_touched", []),
-                "author": "independent sub-agent given only the property text and a scratch worktree (asked for one change that needs a scale / count threshold, a numeric coincidence or an order of definitions, and one that needs three interacting features, a rarely used directive / option / device or sits at the edge of a recent fix)",
+                "author": AUTHOR6 if ROUND == "6" else "independent sub-agent given only the property text and a scratch worktree (asked for one change that needs a scale / count threshold, a numeric coincidence or an order of definitions, and one that needs three interacting features, a rarely used directive / option / device or sits at the edge of a recent fix)",
                 "what_was_run": {
                     "command": f"tools/eval_mutant.sh seeded/{name} " + " ".join(now or [P]),
                     "on_scratch_worktree_of": "/repo HEAD (never on /repo itself)",
@@ -108,7 +119,7 @@ def main():
                 "detected_by": now,
                 "detected_by_checks_as_they_stood": as_stood,
                 "detected_by_own_property_check_as_it_stood": own_first,
-                "history": HISTORY.get(key, "detected by the check as it stood when the change was made"),
+                "history": (HISTORY6 if ROUND == "6" else HISTORY).get(key, "detected by the check as it stood when the change was made"),
                 "agent_meta": agent,
             }
             out = os.path.join(DST, name)
@@ -119,7 +130,7 @@ def main():
                     shutil.copy(os.path.join(d, demo), os.path.join(out, demo))
             json.dump(meta, open(os.path.join(out, "meta.json"), "w"), indent=1, ensure_ascii=False)
             rows.append((name, agent.get("summary", "")[:150].replace("|", "/").replace("\n", " "), ", ".join(now) or "—", meta["history"]))
-    with open(os.path.join(SRC, "round5_table.md"), "w") as f:
+    with open(os.path.join(SRC, f"round{ROUND}_table.md"), "w") as f:
         f.write("| seeded change | what it does | detected by | history |\n|---|---|---|---|\n")
         for r in rows:
             f.write("| " + " | ".join(r) + " |\n")
